@@ -121,6 +121,8 @@ enum PKind {
 #[derive(Clone, Debug)]
 enum Stmt {
     Let(usize, i64),
+    /// a parameter of the enclosing context function (first statement of its body only)
+    Param(usize, i64),
     /// a nested scope, rendered as `{ … };`, `if … { … }` or `if … {} else { … }`
     Block(u8, Block),
     Probe { id: usize, kind: PKind, path: Path, form: &'static str },
@@ -185,6 +187,11 @@ fn block_tok(b: &Block, keep: &dyn Fn(usize) -> bool, out: &mut Vec<String>) {
         match s {
             Stmt::Let(x, t) => {
                 out.push("L".into());
+                out.push(x.to_string());
+                out.push(t.to_string());
+            }
+            Stmt::Param(x, t) => {
+                out.push("A".into());
                 out.push(x.to_string());
                 out.push(t.to_string());
             }
@@ -359,6 +366,7 @@ fn render_block(b: &Block, names: &[String], keep: &dyn Fn(usize) -> bool, tags:
     for s in &b.stmts {
         match s {
             Stmt::Let(x, t) => out.push_str(&format!("let {} = {};\n", names[*x], t)),
+            Stmt::Param(_, _) => {}
             Stmt::Block(style, inner) => {
                 match style % 3 {
                     0 => out.push_str("{\n"),
@@ -416,7 +424,10 @@ fn render_module(p: &Program, mi: usize, keep: &dyn Fn(usize) -> bool, tags: &BT
         match it {
             ItemD::Fn { name, tag, body: None } => out.push_str(&format!("fn {}() -> i64 {{ {} }}\n", names[*name], tag)),
             ItemD::Fn { name, tag, body: Some(b) } => {
-                out.push_str(&format!("fn {}(sel: i64) -> i64 {{\n", names[*name]));
+                match b.stmts.first() {
+                    Some(Stmt::Param(x, _)) => out.push_str(&format!("fn {}(sel: i64, {}: i64) -> i64 {{\n", names[*name], names[*x])),
+                    _ => out.push_str(&format!("fn {}(sel: i64) -> i64 {{\n", names[*name])),
+                }
                 render_block(b, names, keep, tags, &mut next_block, &mut out);
                 out.push_str(&format!("{tag}\n}}\n"));
             }
@@ -571,15 +582,21 @@ fn compile_and_observe(tree: FileTree, rt: &Runtime<NoCtx>, ask: &Ask, want_scop
         let mut probes = BTreeMap::new();
         for (id, path) in &ask.calls {
             // `!path` = a getter without selector (module-level value reference)
-            let r = match path.strip_prefix('!') {
-                Some(getter) => pkg.get_function::<fn() -> i64>(getter).map(|f| f.call()).map_err(|_| ()),
-                None => pkg.get_function::<fn(i64) -> i64>(path).map(|f| f.call(*id as i64)).map_err(|_| ()),
+            let r = match (path.strip_prefix('!'), path.split_once('#')) {
+                (Some(getter), _) => pkg.get_function::<fn() -> i64>(getter).map(|f| f.call()).map_err(|_| ()),
+                (None, Some((fpath, arg))) => {
+                    let arg: i64 = arg.parse().unwrap_or(0);
+                    pkg.get_function::<fn(i64, i64) -> i64>(fpath).map(|f| f.call(*id as i64, arg)).map_err(|_| ())
+                }
+                (None, None) => pkg.get_function::<fn(i64) -> i64>(path).map(|f| f.call(*id as i64)).map_err(|_| ()),
             };
             probes.insert(*id, match r { Ok(t) => Out::Ok(t), Err(()) => Out::Err("get_function".into()) });
         }
         let mut exports = BTreeMap::new();
         for (path, sel) in &ask.gets {
-            let r = if *sel {
+            let r = if let Some((fpath, _)) = path.split_once('#') {
+                pkg.get_function::<fn(i64, i64) -> i64>(fpath).map(|f| f.call(-1, 0)).map_err(|_| ())
+            } else if *sel {
                 pkg.get_function::<fn(i64) -> i64>(path).map(|f| f.call(-1)).map_err(|_| ())
             } else {
                 pkg.get_function::<fn() -> i64>(path).map(|f| f.call()).map_err(|_| ())
@@ -1049,7 +1066,17 @@ impl<'a> Gen<'a> {
             let name = self.names.len();
             self.names.push(format!("cx{m}x{j}"));
             let tag = self.tag();
-            let body = self.block(m, 0);
+            let mut body = self.block(m, 0);
+            if self.rng.chance(1, 3) {
+                // a parameter named like an item / module / local; a `let` of the same
+                // name in the function body would be "declared twice": keep that rare
+                let x = self.pool();
+                let clash = body.stmts.iter().any(|s| matches!(s, Stmt::Let(y, _) if *y == x));
+                if !clash || self.rng.chance(1, 30) {
+                    let t = self.tag();
+                    body.stmts.insert(0, Stmt::Param(x, t));
+                }
+            }
             items.push(ItemD::Fn { name, tag, body: Some(body) });
         }
         let nsig = self.rng.below(3) as usize;
@@ -1489,6 +1516,8 @@ struct Sites {
     pair_scopes: Vec<String>,
     /// every import: (canonical scope, path, position in program order of the block start)
     imports: Vec<(String, Path, usize)>,
+    /// context functions (dotted path below pkg) that take a parameter
+    with_param: Vec<String>,
 }
 
 fn probe_infos(p: &Program) -> Sites {
@@ -1497,6 +1526,7 @@ fn probe_infos(p: &Program) -> Sites {
     let mut let_seq: BTreeMap<(String, String), usize> = BTreeMap::new();
     let mut pair_scopes: Vec<String> = vec![];
     let mut imports: Vec<(String, Path, usize)> = vec![];
+    let mut with_param: Vec<String> = vec![];
     let mut seq = 0usize;
     #[allow(clippy::too_many_arguments)]
     fn walk(p: &Program, mi: usize, b: &Block, ctx: &str, scope: &str, depth: usize, next_block: &mut usize, seq: &mut usize, out: &mut BTreeMap<usize, ProbeInfo>, decls: &mut BTreeMap<(String, String), i64>, let_seq: &mut BTreeMap<(String, String), usize>, pair_scopes: &mut Vec<String>, imports: &mut Vec<(String, Path, usize)>) {
@@ -1520,6 +1550,10 @@ fn probe_infos(p: &Program) -> Sites {
                 Stmt::Let(x, t) => {
                     decls.entry((scope.to_string(), p.names[*x].clone())).or_insert(*t);
                     let_seq.entry((scope.to_string(), p.names[*x].clone())).or_insert(*seq);
+                }
+                Stmt::Param(x, t) => {
+                    decls.entry((scope.to_string(), p.names[*x].clone())).or_insert(*t);
+                    let_seq.entry((scope.to_string(), p.names[*x].clone())).or_insert(0);
                 }
             }
         }
@@ -1545,7 +1579,12 @@ fn probe_infos(p: &Program) -> Sites {
                     decls.entry((mn[mi].clone(), p.names[*name].clone())).or_insert(*tag);
                     if let Some(b) = body {
                         let fscope = format!("{}.{}", mn[mi], p.names[*name]);
-                        let below = fscope.strip_prefix("pkg.").unwrap_or(&fscope).to_string();
+                        let mut below = fscope.strip_prefix("pkg.").unwrap_or(&fscope).to_string();
+                        if let Some(Stmt::Param(_, t)) = b.stmts.first() {
+                            // the argument passed for the parameter: its tag
+                            with_param.push(below.clone());
+                            below = format!("{below}#{t}");
+                        }
                         walk(p, mi, b, &below, &fscope, 0, &mut next_block, &mut seq, &mut out, &mut decls, &mut let_seq, &mut pair_scopes, &mut imports);
                     }
                 }
@@ -1567,7 +1606,7 @@ fn probe_infos(p: &Program) -> Sites {
             decls.entry((p.names[r.name].clone(), p.names[*n].clone())).or_insert(*t);
         }
     }
-    Sites { probes: out, decls, let_seq, pair_scopes, imports }
+    Sites { probes: out, decls, let_seq, pair_scopes, imports, with_param }
 }
 
 // ------------------------------------------------------------------ the compiler's own scope graph
@@ -1822,7 +1861,10 @@ fn check_variant(rep: &mut Report, drv: &mut Driver, p: &Program, label: &str, i
     for (name, tag) in &model.exports {
         let below = name.strip_prefix("pkg.").unwrap_or(name).to_string();
         if name.starts_with("pkg.") && !below.contains("sp") {
-            gets.push((below, *tag >= 0 && name.rsplit('.').next().is_some_and(|l| l.starts_with("cx"))));
+            let is_cx = *tag >= 0 && name.rsplit('.').next().is_some_and(|l| l.starts_with("cx"));
+            // context functions with a parameter are asked for with two arguments
+            let path = if sites.with_param.contains(&below) { format!("{below}#0") } else { below };
+            gets.push((path, is_cx));
         }
     }
     let mut absent: Vec<String> = vec![];
@@ -1907,7 +1949,7 @@ fn check_variant(rep: &mut Report, drv: &mut Driver, p: &Program, label: &str, i
     // get_function by module path
     for (path, _) in &gets {
         let got = run.exports.get(path).cloned().unwrap_or(Out::Err("not-run".into()));
-        let want = match model.exports.get(&format!("pkg.{path}")) {
+        let want = match model.exports.get(&format!("pkg.{}", path.split('#').next().unwrap_or(path))) {
             Some(t) => Out::Ok(*t),
             None => Out::Err("get_function".into()),
         };
